@@ -165,6 +165,28 @@ def _render(ast, st):
     return out, allzero, anypart
 
 
+NON_CALENDAR = {"MAJOR", "MINOR", "PATCH", "BUILD", "BLD", "PYTAG", "TAG", "NUM", "INC0", "INC1"}
+
+
+def render_omitting(ast, st, R, p_omit=0.5):
+    """A text the pattern ACCEPTS but would not render itself: optional groups that hold only non-calendar parts are
+    left out (at random) although their parts are not all zero. Reading it back gives those parts their defaults."""
+    out = ""
+    for n in ast:
+        if n[0] == "lit":
+            out += n[1]
+        elif n[0] == "part":
+            out += render_part(n[1], st)
+        else:
+            inner = set(parts_in(n[1]))
+            if inner and inner <= NON_CALENDAR and R.random() < p_omit:
+                continue
+            t, z, ap = _render(n[1], st)
+            if ap and not z:
+                out += render_omitting(n[1], st, R, p_omit)
+    return out
+
+
 def render(ast, st):
     """Rendered text. An optional group is omitted iff it contains parts and all of them are zero;
     the top level is never omitted (README: 'the part [is] omitted when 0 and added when > 0')."""
